@@ -103,7 +103,7 @@ def run(ctx: core.Ctx) -> int:
             for j, ident in enumerate(P[cls]):
                 g = by_cls[cls][j % len(by_cls[cls])]
                 cases += make_cases([g], rnd, 1, len(cases) + 1, ctx.seed, sweep=ident)
-    events = core.pmap(projmodel.run_project_case, cases, chunksize=16)
+    events = ctx.pmap(projmodel.run_project_case, cases, chunksize=16)
     for ev in events[:: max(1, len(events) // 4)][:4]:
         o = ev["obs"]
         ctx.samples.append({"case": json.loads(ev["label"]),
